@@ -108,9 +108,9 @@ def run_config(fi, fd, cache, mode):
             # the very same set_store call is made again after the working directory changed: with a relative internal_dir this is
             # ANOTHER (empty) store, with an absolute one the same store; either way keep then load must round-trip
             steps = _proc(dict(common, cwd=os.path.join(base, "cwd1"), internal=i1, data=d1,
-                               actions=["keep", "chdir:" + os.path.join(base, "cwd2"), "set_store", "keep", "load"]))
-            if check(steps[:3], "process 1", True):
-                check(steps[4:], "process 1 after os.chdir and the same set_store call", fi == "relative", must_exec=(fi == "relative"))
+                               actions=["keep", "load", "chdir:" + os.path.join(base, "cwd2"), "set_store", "keep", "load"]))
+            if check(steps[:5], "process 1", True):
+                check(steps[6:], "process 1 after os.chdir and the same set_store call", fi == "relative", must_exec=(fi == "relative"))
             stray_ok = fi == "relative" or fd == "relative"
         elif mode == "chdir_inside_process":
             steps = _proc(dict(common, cwd=os.path.join(base, "cwd1"), internal=i1, data=d1, actions=["keep", "chdir:" + os.path.join(base, "cwd2"), "load", "keep"]))
@@ -263,7 +263,7 @@ def run(tier, seed):
     for fi, fd in itertools.product(FORMS, FORMS):
         for cache in (CACHES if tier != "quick" else ["unset", 3]):
             for mode in CWD_MODES:
-                if tier == "quick" and cache == 3 and mode != "other_cwd_in_second_process":
+                if tier == "quick" and cache == 3 and mode not in ("other_cwd_in_second_process", "same_set_store_call_after_chdir"):
                     continue
                 cfgs.append((fi, fd, cache, mode))
     outs = pool.pmap(_cfg_job, cfgs, chunk=2)
